@@ -103,6 +103,22 @@ _inp("C30", "exhaustive enumeration of worlds x composite source lists x page si
   "C12 worlds x 3 queries x 8 source lists (terms, f64 / i64 histograms with interval 1 and 2, pairs) x page size 1..5: concatenating the pages obtained by feeding after_key back equals the buckets of one size-10000 request (keys, order, counts, sub-aggregations); after_key absent exactly on the last page; the walk terminates.",
   "Trusted: the unpaged response as reference (checked by C12); a start-up canary verifies the comparison rejects a corrupted bucket list.")
 
+_inp("C15", "exhaustive enumeration of valid documents and all single / double mutations per schema, against an independent schema-validity predicate and the add => commit obligation",
+  "Two schemas (flat; nested two levels with required and nullable properties) x 3 base documents x every single and double application of the mutation operators (id variants, unknown fields/properties, 11 wrong-typed replacement values per location, array wrapping, property drops, array element appends; thorough adds a 33 MiB stored value): add_document Ok => commit Ok and a fresh writer can still commit afterwards; schema-invalid => add_document Err.",
+  "Trusted: validity predicate; inputs the docs leave open are not judged (integers in f64 fields, empty arrays, dotted top-level names).")
+_inp("C16", "exhaustive enumeration of per-field nasty values and all single-edit neighbours of serialized base requests against three small indexes, each search isolated in a watchdog-guarded worker process",
+  "10 base requests covering every top-level feature x every value location x typed nasty alphabets (214 strings incl. multi-byte cursors aligned and misaligned to the 2-byte hex chunks, regex / wildcard / script extremes, 16-30 numbers, array / key edits) + 141 hand-written extras + ~350 cursor variants per index + every single-character edit of the serialized requests that still deserializes, on 3 indexes: each search must return Ok or Err within a CPU-time watchdog without panic, abort or unbounded memory.",
+  "Trusted: worker isolation (CPU-time watchdog 2 s / 10 s, resident-set guard); requests whose only effect is a huge `limit`-driven allocation are outside the alphabet.")
+CHECKS["C17"] = ("fault_enumeration", "exhaustive single-byte corruption (xor masks) and truncation of every byte of every index file, each mutant opened and searched on a fresh in-memory storage",
+  "Worlds on InMemoryStorage (1 segment + pending WAL; 2 segments + tombstone; thorough adds nested / multi-valued and 3-segment worlds) x every file x every byte offset x masks {01,80,FF} (thorough: all single-bit masks + FF) x every truncation length: open / reader / three probe searches must return Err or results identical to the baseline, never panic; for wal.log the recovered queue must be an intact prefix and commit must equal the real code's result on that prefix.",
+  "Trusted: single-file corruption model; fields no probe can observe (uuid, committed_at) are accepted when probe results are identical.", "DESIGN.md §3-C17")
+_inp("C25", "exhaustive enumeration of corpora x history shapes x requests driven through the CLI binary, the HTTP service, the C FFI and the library",
+  "6 (quick) / 26 (thorough) corpora x up to 13-20 history shapes (add, upsert, delete, split commits, compact, uncommitted tails) x 20-36 requests (query strings, structured queries, sorts, cursor walks, aggregations inline / from file, executions, filter, highlight, erroring requests) through searchlite-cli (built from /repo at run time), an in-process searchlite_http::run server (raw HTTP/1.1), searchlite_ffi and a library mirror with each front end's options: stored contents and search responses must agree (1e-5, tie classes, opaque cursors, profile timings dropped), error <=> error; documented CLI invocations must work.",
+  "Trusted: library mirror as reference; undocumented CLI flags and FFI histories with deletes are left out.")
+_inp("C26", "exhaustive enumeration of every buffer capacity 0..len+16 x argument combinations, output buffer between canaries and PROT_NONE guard pages, each family in a forked child",
+  "21 (quick) / 106 (thorough) combinations of query bytes, limit, cursor, aggregations, aggs_len (every proper prefix length) and null flags x every buf_cap from 0 to the full response length + 16, in 1-3 worlds: canaries intact, no fault, ret = min(len, buf_cap-1), bytes [0,ret) are a prefix of the large-buffer response, byte ret is NUL, null / invalid arguments yield 0; a fault in the child is reported with the exact arguments.",
+  "Trusted: guard-page / canary harness; contract as written in searchlite-ffi's Safety comments and header.")
+
 NOT_YET = "check not built yet in this session (see DESIGN.md §3 for the planned engine); no verdict is claimed"
 NOT_APPLICABLE = {}
 
